@@ -885,6 +885,33 @@ func (p c17) qpAndExpand(ctx *core.RunCtx, params rlwe.Parameters, key []byte) {
 		ctx.Fail("contract", "compressed-key|seed-missing", "compressed key has no seed")
 		return
 	}
+	// two key generators bound (WithPRNG) to generators with one key: the public randomness of their keys - the
+	// uniform components of a key, the seed of a compressed one - is the same
+	{
+		mkGen := func() *rlwe.KeyGenerator {
+			kp, _ := sampling.NewKeyedPRNG(key)
+			return rlwe.NewKeyGenerator(params).WithPRNG(kp)
+		}
+		var ka, kb [2]*rlwe.EvaluationKey
+		for c, compressed := range []bool{false, true} {
+			evp := rlwe.EvaluationKeyParameters{LevelQ: &lq, LevelP: &lp, BaseTwoDecomposition: &b2, Compressed: compressed}
+			ka[c] = mkGen().GenEvaluationKeyNew(skIn, skOut, evp)
+			kb[c] = mkGen().GenEvaluationKeyNew(skIn, skOut, evp)
+		}
+		ctx.Count("oracle.bound-key-generators-agree", 1)
+		for i := range ka[0].Value {
+			for j := range ka[0].Value[i] {
+				if !ka[0].Value[i][j][1].Equal(&kb[0].Value[i][j][1]) {
+					ctx.Fail("twin", "KeyGenerator.WithPRNG|uniform-component-differs", "two key generators bound to generators with the same key produced keys with different uniform components ([%d][%d])", i, j)
+					return
+				}
+			}
+		}
+		if ka[1].Seed == nil || kb[1].Seed == nil || *ka[1].Seed != *kb[1].Seed {
+			ctx.Fail("twin", "KeyGenerator.WithPRNG|compressed-key-seed-differs", "two key generators bound to generators with the same key produced compressed keys with different seeds: the seed (which stands for the uniform components) does not come from the bound generator")
+			return
+		}
+	}
 	first := evk.CopyNew()
 	first.Seed = evk.Seed
 	e1 := *evk
